@@ -20,7 +20,7 @@
 (***************************************************************************)
 EXTENDS Integers, Sequences, FiniteSets, TLC, Json
 
-CONSTANT Mode    \* "kinds" | "units"
+CONSTANT Mode    \* "kinds" | "units" | "weights" | "dependent"
 
 VARIABLES kinds, inh, cache, phase
 vars == <<kinds, inh, cache, phase>>
@@ -67,7 +67,36 @@ WDerive(decl, inherited) == CASE decl = "none" -> inherited [] decl = "bolder" -
                               [] decl = "100" -> 100 [] decl = "400" -> 400 [] decl = "600" -> 600 [] OTHER -> 900
 LeafWeight(s) == WDerive(s.leaf, WDerive(s.mid, WDerive(s.root, 400)))
 
+\* ---- computed values that depend on other properties of the same element (mode "dependent")
+\* CSS 2.1 9.7 / CSS Display 3 2.7: an absolutely positioned or floated element, and the root, are blockified; float
+\* computes to none on an absolutely positioned element. Displays are canonical triples "outer inner [list-item]".
+Displays == {"inline", "block", "inline-block", "list-item", "inline list-item", "table", "inline-table", "table-cell", "table-row", "flex", "inline-flex", "grid", "inline-grid", "none"}
+Canon(d) == CASE d = "inline" -> "inline flow" [] d = "block" -> "block flow" [] d = "inline-block" -> "inline flow-root" [] d = "list-item" -> "block flow list-item"
+              [] d = "inline list-item" -> "inline flow list-item" [] d = "table" -> "block table" [] d = "inline-table" -> "inline table" [] d = "table-cell" -> "table-cell"
+              [] d = "table-row" -> "table-row" [] d = "flex" -> "block flex" [] d = "inline-flex" -> "inline flex" [] d = "grid" -> "block grid" [] d = "inline-grid" -> "inline grid"
+              [] OTHER -> "none"
+Blockified(d) == CASE d = "inline" -> "block flow" [] d = "inline-block" -> "block flow-root" [] d = "inline list-item" -> "block flow list-item"
+                   [] d = "inline-table" -> "block table" [] d = "inline-flex" -> "block flex" [] d = "inline-grid" -> "block grid"
+                   [] d \in {"table-cell", "table-row"} -> "block flow" [] OTHER -> Canon(d)
+Contexts == {"plain", "float", "absolute", "fixed", "root", "float-absolute"}
+MustBlockify(c) == c # "plain"
+ComputedDisplay(d, c) == IF d = "none" THEN "none" ELSE IF MustBlockify(c) THEN Blockified(d) ELSE Canon(d)
+ComputedFloat(c) == IF c = "float" THEN "left" ELSE "none"      \* (float-absolute: position wins)
+\* border / outline / column-rule widths compute to 0 when the style is none or hidden (CSS Backgrounds 3, 4.3)
+LineStyles == {"none", "hidden", "solid", "dotted"}
+ComputedLineWidth(st, w) == IF st \in {"none", "hidden"} THEN 0 ELSE w
+\* bleed: auto computes to 6pt (8px) if marks has crop, to 0 otherwise (CSS Paged Media 3, 7.3)
+MarksVals == {"none", "crop", "cross", "crop cross"}
+ComputedBleed381(m) == IF m \in {"crop", "crop cross"} THEN 6 * 508 ELSE 0
+DependentScn == {[k |-> "display", d |-> d, c |-> c, wantd |-> ComputedDisplay(d, c), wantf |-> ComputedFloat(c)] : d \in Displays, c \in Contexts}
+          \cup {[k |-> "line", p |-> p, st |-> st, w |-> w, want |-> ComputedLineWidth(st, w)] : p \in {"border-top", "border-left", "outline", "column-rule"}, st \in LineStyles, w \in {0, 5}}
+          \cup {[k |-> "bleed", m |-> m, want381 |-> ComputedBleed381(m)] : m \in MarksVals}
+\* blockification keeps the inner display type and the list-item flag, and is idempotent
+BlockifyLaws == \A d \in Displays \ {"none"} : /\ Blockified(d) \in {Canon(e) : e \in Displays} \cup {"block flow-root"}
+                                               /\ (d \in {"block", "list-item", "table", "flex", "grid"} => Blockified(d) = Canon(d))
+
 Init == /\ CASE Mode = "units" -> kinds \in UnitScn /\ inh = TRUE
+             [] Mode = "dependent" -> kinds \in DependentScn /\ inh = TRUE
              [] Mode = "weights" -> kinds \in WeightScn /\ inh = TRUE
              [] OTHER -> kinds \in [Nodes -> Kinds] /\ inh \in BOOLEAN
         /\ cache = [n \in Nodes |-> "?"] /\ phase = IF Mode = "kinds" THEN "get" ELSE "done"
@@ -162,6 +191,7 @@ EmitScn == phase = "done" =>
                                            \* line-height: 150% on the middle element is absolute: the leaf inherits the length, not the percentage
                                            lh381 |-> (3 * MidFs(kinds)) \div 2]))
   ELSE IF Mode = "weights" THEN PrintT(ToJson([mode |-> "weights", scn |-> kinds, weight |-> LeafWeight(kinds)]))
+  ELSE IF Mode = "dependent" THEN PrintT(ToJson([mode |-> "dependent", dep |-> kinds]))
   ELSE PrintT(ToJson([mode |-> "kinds", kinds |-> kinds, inh |-> inh, want |-> [n \in Nodes |-> Computed(kinds, inh, n)]]))
 \* the CSS property index data, printed once
 EmitMeta == (Mode = "kinds" /\ phase = "done" /\ ~inh /\ \A n \in Nodes : kinds[n] = "none") =>
